@@ -1,9 +1,9 @@
 import SaModel.Lemmas.C03New
 /-
 `BuiltFor` only depends on what `take` leaves behind (`takeRest`: kind, parameters, child metas, presence of the
-bitmap).  So shape preservation by `push` is exactly agent-refine's `push_takeRest : push ext b x = ok b' →
-takeRest b' = takeRest b`; `runRows_builtFor` takes that statement as a hypothesis and yields the `hshape`
-interface hypothesis of `C03_wf_partial`.
+bitmap).  So shape preservation by `push` is exactly `Build.push_takeRest : push ext b x = ok b' →
+takeRest b' = takeRest b` (Lemmas/C10TakePush.lean); `runRows_builtFor` takes that statement as a hypothesis and yields the
+`hshape` hypothesis of `Props.C03.C03_wf_of_root`.
 -/
 namespace SaModel.Lemmas.C03
 open SaModel SaModel.Build SaModel.Spec
@@ -62,7 +62,7 @@ theorem foldlM_takeRest (ext : Ext)
       rw [hp] at h
       rw [foldlM_takeRest ext hpush rest r1 root h, hpush x r0 r1 hp]
 
-/-- **`hshape` of `C03_wf_partial`, from `push_takeRest`**: after any accepted sequence of rows the root builder
+/-- **`hshape` of `Props.C03.C03_wf_of_root`, from `push_takeRest`**: after any accepted sequence of rows the root builder
 still stands for the struct of the declared fields. -/
 theorem runRows_builtFor (ext : Ext) (fields : List Field) (rows : List SVal) (root : B)
     (hpush : ∀ (x : SVal) (b b' : B), push ext b x = .ok b' → takeRest b' = takeRest b)
@@ -76,7 +76,7 @@ theorem runRows_builtFor (ext : Ext) (fields : List Field) (rows : List SVal) (r
     exact BuiltFor_of_takeRest_eq r0 root _ _ (foldlM_takeRest ext hpush rows r0 root h)
       (newRoot_builtFor fields r0 hr)
 
-/-- bridge to the strict dictionary clause of agent-refine's `WFB` (`k = .int j → 0 ≤ j ∧ j.toNat < |index|`): together
+/-- bridge to the strict dictionary clause of `WFB` (`k = .int j → 0 ≤ j ∧ j.toNat < |index|`): together
 with "every key is null or an integer" it is the dictionary clause of `Faithful` -/
 theorem faithful_keys_of_strict (ks : List LVal) (n : Nat)
     (h1 : ∀ k ∈ ks, k = .null ∨ ∃ j : Int, k = .int j)
